@@ -1275,18 +1275,22 @@ Section Stmt.
         * destruct (tok_label_wt _ _ El) as [<- Hnl]. specialize (HC1 Hnl). repeat pstep.
         * pstep.
     - (* KJumpLinkR *)
-      pstep. eapply get_any_fin; [eassumption|]. intros nx st2 HW2 Hn2 HC2.
+      pstep. eapply peek_fin; [eassumption|]. intros nx l0 Hnx.
       destruct (tok_reg nx) as [r1|] eqn:Er.
-      + destruct (tok_reg_wt _ _ Er) as [<- Hnl]. specialize (HC2 Hnl). repeat pstep.
+      + destruct (tok_reg_wt _ _ Er) as [Hw Hnl].
+        eapply get_known_fin; [eassumption|exact Hnx|exact Hnl|]. intros ? ? ?. rewrite <- Hw in *.
+        repeat pstep.
       + apply lift_imm_fin. intros [imm|] Ei.
-        * destruct (tok_imm_wt _ _ Ei) as [<- Hnl]. specialize (HC2 Hnl).
+        * destruct (tok_imm_wt _ _ Ei) as [Hw Hnl].
+          eapply get_known_fin; [eassumption|exact Hnx|exact Hnl|]. intros ? ? ?. rewrite <- Hw in *.
           eapply peek_fin; [eassumption|]. intros pk l Hpk.
           destruct (is_lparen pk) eqn:Elp.
           -- eapply get_known_fin; [eassumption|exact Hpk|apply is_lparen_nonl; exact Elp|]. intros ? ? ?.
              repeat pstep.
           -- repeat pstep.
         * destruct (is_lparen nx) eqn:Elp.
-          -- specialize (HC2 (is_lparen_nonl _ Elp)). repeat pstep.
+          -- eapply get_known_fin; [eassumption|exact Hnx|apply is_lparen_nonl; exact Elp|]. intros ? ? ?.
+             repeat pstep.
           -- repeat pstep.
     - (* KLoad *)
       pstep. eapply get_any_fin; [eassumption|]. intros nx st2 HW2 Hn2 HC2.
